@@ -3,7 +3,11 @@
 // another method set.
 package twin
 
-type Rec struct{ N int64 }
+type Rec struct {
+	N     int64
+	Count int64
+	Label string
+}
 
 func (r Rec) Alpha() string { return "one-alpha" }
 func (r Rec) Name() string  { return "one-name" }
